@@ -23,10 +23,16 @@ package main
 //@   mode int
 //@   requires br != nil
 //@   fncall parseNodeFromSection requires arg1 == wantedCid
+//@   # C13 (a CAR cut short must give an error, not other bytes): what is parsed is the WHOLE section as it stands in the file,
+//@   # `length` bytes from the position the reader had on entry (a short read must not be parsed)
+//@   # (for a length the platform can allocate at all: make panics beyond MaxInt64)
+//@   fncall parseNodeFromSection requires length <= 9223372036854775807 ==> len(arg0) == int(length) && (forall j int :: 0 <= j && j < len(arg0) ==> arg0[j] == fbyte(br, atentry(consumed(br)) + j))
 //@   noframe
 
 //@ func readNodeFromReaderAtWithOffsetAndSize
 //@   mode int
 //@   requires reader != nil
 //@   fncall parseNodeFromSection requires arg1 == wantedCid
+//@   # C13: the whole section as it stands in the file at `offset`
+//@   fncall parseNodeFromSection requires length <= 9223372036854775807 ==> len(arg0) == int(length) && (forall j int :: 0 <= j && j < len(arg0) ==> arg0[j] == fbyte(reader, int(offset) + j))
 //@   noframe
